@@ -1024,11 +1024,17 @@ func ruleErrorWins(c *Ctx) {
 			if !ok {
 				return nil
 			}
-			if f, _ := fieldLoad(t.Resolve(fr, x).V); isErrField(f) {
+			rx := t.Resolve(fr, x).V
+			if f, _ := fieldLoad(rx); isErrField(f) {
 				if nn {
 					return []Ev{{Kind: "error!=nil"}}
 				}
 				return []Ev{{Kind: "error=nil"}}
+			}
+			// the test moved into a helper that is handed the error member (`responseError(r.Error, …)`): seen
+			// unbound by the engine's probe, it makes the helper worth following
+			if prm, isP := rx.(*ssa.Parameter); isP && fr != t.RootFr && strings.HasSuffix(prm.Type().String(), "reserr.Error") {
+				return []Ev{{Kind: "error-param-test"}}
 			}
 			return nil
 		}
@@ -1249,26 +1255,38 @@ func ruleOnReadyInline(c *Ctx) {
 			return nil
 		}
 		f, base := fieldLoad(x)
-		if f != fState || base == nil {
+		bfr := fr
+		if f == nil {
+			// a predicate on the state VALUE (`func (st subscriptionState) isReady()`): the tested parameter
+			// is the caller's load of the field
+			rx := t.Resolve(fr, x)
+			f, base = fieldLoad(rx.V)
+			bfr = rx.Fr
+			if f == nil {
+				if prm, isP := x.(*ssa.Parameter); isP && fr != t.RootFr && types.Identical(prm.Type(), fState.Type()) {
+					f = fState // the engine's probe of such a predicate
+				}
+			}
+		}
+		if f != fState {
 			return nil
 		}
-		if rb := t.Resolve(fr, base).V; rb != ssa.Value(recv) {
-			// (the engine's probe of a predicate helper sees the helper's own, unbound receiver)
-			if _, isP := rb.(*ssa.Parameter); !isP || fr == t.RootFr {
-				return nil
+		if base != nil {
+			if rb := t.Resolve(bfr, base).V; rb != ssa.Value(recv) {
+				// (the engine's probe of a predicate helper sees the helper's own, unbound receiver)
+				if _, isP := rb.(*ssa.Parameter); !isP || bfr == t.RootFr {
+					return nil
+				}
 			}
 		}
 		set := satisfying(op, k, dir, kLast+1)
-		ready := len(set) > 0
-		for v := range set {
-			if v < kReady {
-				ready = false
+		var ss []string
+		for v := int64(0); v <= kLast; v++ {
+			if set[v] {
+				ss = append(ss, fmt.Sprint(v))
 			}
 		}
-		if ready {
-			return []Ev{{Kind: "is-ready"}}
-		}
-		return nil
+		return []Ev{{Kind: "stateset", Note: strings.Join(ss, ",")}}
 	}
 	tr := runTrace(p, fn, sp)
 	bad := ""
@@ -1279,7 +1297,32 @@ func ruleOnReadyInline(c *Ctx) {
 			continue
 		}
 		nNow++
-		if !hasKind(path[:ci], "is-ready") {
+		// several tests of the state on one path (a list of excluded states instead of a range comparison) are intersected
+		possible := map[string]bool{}
+		for v := int64(0); v <= kLast; v++ {
+			possible[fmt.Sprint(v)] = true
+		}
+		for _, e := range path[:ci] {
+			if e.Kind != "stateset" {
+				continue
+			}
+			in := map[string]bool{}
+			for _, x := range strings.Split(e.Note, ",") {
+				in[x] = true
+			}
+			for v := range possible {
+				if !in[v] {
+					delete(possible, v)
+				}
+			}
+		}
+		isReady := len(possible) > 0
+		for v := int64(0); v < kReady; v++ {
+			if possible[fmt.Sprint(v)] {
+				isReady = false
+			}
+		}
+		if !isReady {
 			bad = "the callback is run at once on a path that has not established that the subscription is ready: a request is answered while references below the first level are still loading (an HTTP GET renders them as href only, or as malformed JSON): " + tr.FmtPath(path)
 		}
 	}
